@@ -18,6 +18,7 @@ class Controller:
         self.inflight_trace = []
         self.released = []
         self.deadlock = False
+        self.sync_bodies = 0
 
     async def park(self, path, idx, args=()):
         key = self.key(path, idx, args)
@@ -31,6 +32,13 @@ class Controller:
         finally:
             self.parked.pop(key, None)
             self.progress += 1
+
+    def sync_body(self, path, idx):
+        """A synchronous node function is executing at this instant (it cannot be held open)."""
+        self.progress += 1
+        self.sync_bodies += 1
+        self.max_inflight = max(self.max_inflight, len(self.parked) + 1)
+        self.inflight_trace.append(len(self.parked) + 1)
 
     def _choose(self):
         for key in self.schedule:
